@@ -52,6 +52,8 @@ struct Step {
     res: String,
     #[serde(default)]
     race: bool,
+    #[serde(default)]
+    ok: bool,
 }
 
 #[derive(Deserialize)]
@@ -66,6 +68,9 @@ struct Scenario {
     decode: Vec<u8>,
     #[serde(default)]
     txid0: u16,
+    /// mode "serial": whether the first attempts to open the port succeed
+    #[serde(default)]
+    port: bool,
     steps: Vec<Step>,
 }
 
@@ -261,7 +266,7 @@ struct Shared {
 }
 
 async fn run_scenario(sc: &Scenario, sink: &Sink) {
-    if sc.mode == "task" {
+    if sc.mode == "task" || sc.mode == "serial" {
         return run_task_scenario(sc, sink).await;
     }
     let ctx = Ctx {
@@ -478,6 +483,45 @@ impl Listener<ClientState> for RecListener {
     }
 }
 
+struct RecPortListener {
+    ctx: Ctx,
+}
+
+impl Listener<PortState> for RecPortListener {
+    fn update(&mut self, value: PortState) -> MaybeAsync<()> {
+        let (state, d) = match value {
+            PortState::Disabled => ("Disabled", 0),
+            PortState::Wait(d) => ("Wait", d.as_millis() as u64),
+            PortState::Open => ("Open", 0),
+            PortState::Shutdown => ("Shutdown", 0),
+        };
+        self.ctx
+            .sink
+            .emit(json!({"e":"listener","state":state,"d":d,"t":self.ctx.now_ms()}));
+        MaybeAsync::ready(())
+    }
+}
+
+/// what `serial::open` reaches with the hooks compiled in: the script decides the outcome
+struct HOpener {
+    ctx: Ctx,
+    ok: Arc<std::sync::atomic::AtomicBool>,
+    opened: Arc<Mutex<Option<IoHandle>>>,
+}
+
+impl rodbus::verif::PortOpener for HOpener {
+    fn open(&self, _path: &str) -> std::io::Result<Box<dyn rodbus::verif::VerifIo>> {
+        self.ctx.sink.emit(json!({"e":"attempt","t":self.ctx.now_ms()}));
+        if self.ok.load(Ordering::SeqCst) {
+            let (io, h) = script_io(self.ctx.sink.clone());
+            *self.opened.lock().unwrap() = Some(h);
+            Ok(Box::new(io))
+        } else {
+            Err(std::io::Error::from(std::io::ErrorKind::NotFound))
+        }
+    }
+}
+
 type ConnResult = std::io::Result<Box<dyn rodbus::verif::VerifIo>>;
 
 struct HConnector {
@@ -504,8 +548,16 @@ async fn run_task_scenario(sc: &Scenario, sink: &Sink) {
         sink: sink.clone(),
         t0: tokio::time::Instant::now(),
     };
-    sink.emit(json!({"e":"cfg","id":sc.id,"mode":sc.mode,"framing":sc.framing,"queue":sc.queue,
-        "max_timeouts":sc.max_timeouts,"retry":sc.retry,"txid0":0}));
+    let serial = sc.mode == "serial";
+    if serial {
+        sink.emit(json!({"e":"cfg","id":sc.id,"mode":sc.mode,"framing":"rtu","queue":sc.queue,
+            "max_timeouts":0,"retry":sc.retry,"txid0":0,"port":sc.port}));
+    } else {
+        sink.emit(json!({"e":"cfg","id":sc.id,"mode":sc.mode,"framing":sc.framing,"queue":sc.queue,
+            "max_timeouts":sc.max_timeouts,"retry":sc.retry,"txid0":0}));
+    }
+    let port_ok = Arc::new(std::sync::atomic::AtomicBool::new(sc.port));
+    let opened: Arc<Mutex<Option<IoHandle>>> = Arc::new(Mutex::new(None));
     let pending = Arc::new(Mutex::new(None));
     let connector = Arc::new(HConnector {
         ctx: ctx.clone(),
@@ -519,12 +571,28 @@ async fn run_task_scenario(sc: &Scenario, sink: &Sink) {
         Duration::from_millis(sc.retry[0]),
         Duration::from_millis(sc.retry[1]),
     );
-    let (channel, task) = rodbus::verif::tcp_client_task(
-        connector,
-        retry,
-        Box::new(RecListener { ctx: ctx.clone() }),
-        options,
-    );
+    let (channel, task) = if serial {
+        rodbus::verif::install_port_opener(Some(Arc::new(HOpener {
+            ctx: ctx.clone(),
+            ok: port_ok.clone(),
+            opened: opened.clone(),
+        })));
+        create_rtu_client_task(
+            "/dev/verif",
+            SerialSettings::default(),
+            sc.queue,
+            retry,
+            decode_level(&sc.decode),
+            Some(Box::new(RecPortListener { ctx: ctx.clone() })),
+        )
+    } else {
+        rodbus::verif::tcp_client_task(
+            connector,
+            retry,
+            Box::new(RecListener { ctx: ctx.clone() }),
+            options,
+        )
+    };
     let mut channel = Some(channel);
     let polls = Arc::new(AtomicU64::new(0));
     let task = tokio::spawn(PollCounted::new(task.run(), polls.clone()));
@@ -539,7 +607,19 @@ async fn run_task_scenario(sc: &Scenario, sink: &Sink) {
     sink.emit(json!({"e":"q"}));
 
     for st in &sc.steps {
+        if let Some(h) = opened.lock().unwrap().take() {
+            // the serial task opened a new port since the last step
+            outbox.clear();
+            ioh = Some(h);
+        }
         match st.op.as_str() {
+            "port" => {
+                if !serial {
+                    continue;
+                }
+                sink.emit(json!({"e":"port","ok":st.ok}));
+                port_ok.store(st.ok, Ordering::SeqCst);
+            }
             "submit" => {
                 let ch = match channel.as_ref() {
                     Some(c) => c.clone(),
@@ -559,7 +639,18 @@ async fn run_task_scenario(sc: &Scenario, sink: &Sink) {
                     Some(h) if !h.is_dropped() => h.clone(),
                     _ => continue,
                 };
-                let bytes = if st.op == "reply" {
+                let bytes = if st.op == "reply" && serial {
+                    let mut b = vec![st.unit];
+                    b.extend_from_slice(&st.pdu);
+                    let c = crc16(&b);
+                    b.push(c as u8);
+                    b.push((c >> 8) as u8);
+                    if st.kind == "hold" {
+                        outbox.extend_from_slice(&b);
+                        continue;
+                    }
+                    b
+                } else if st.op == "reply" {
                     for f in h.take_tx() {
                         if f.len() >= 2 {
                             last_tx = Some(((f[0] as u16) << 8) | f[1] as u16);
@@ -611,6 +702,9 @@ async fn run_task_scenario(sc: &Scenario, sink: &Sink) {
                 h.write_error(io_kind(&st.kind));
             }
             "connector" => {
+                if serial {
+                    continue;
+                }
                 let tx = match pending.lock().unwrap().take() {
                     Some(tx) if !tx.is_closed() => tx,
                     _ => continue,
@@ -687,6 +781,7 @@ async fn run_task_scenario(sc: &Scenario, sink: &Sink) {
     let _ = settle(sink, std::slice::from_ref(&polls)).await;
     drop(channel);
     let _ = settle(sink, std::slice::from_ref(&polls)).await;
+    rodbus::verif::install_port_opener(None);
     sink.emit(json!({"e":"q"}));
 }
 
